@@ -292,6 +292,29 @@ def wsUpgrade (cfg : Cfg) (w : World) (path : List Char) (tok : TokRef) (sub : W
             | none => (w', .closed c)
           else (w', .closed c)
 
+/-- the upgrade, with the client's own values of the identity header (Model/Auth.lean) -/
+def wsUpgradeH (cfg : Cfg) (w : World) (path : List Char) (tok : TokRef) (sub : WsSub) (hdr : List (List Char)) : World × WsOut :=
+  if muxRedirects .get path then (w, .redirect)
+  else
+    match streamInterceptorH cfg w path tok hdr with
+    | (w', .crossdomain) => (w', .crossdomain)
+    | (w', .unauthorized) => (w', .unauthorized)
+    | (w', .forbidden) => (w', .forbidden)
+    | (w', .panic) => (w', .panic)
+    | (w', .pass user) =>
+      match extractStreamPathAndExt path with
+      | none => (w', .panic)
+      | some (sp, ext) =>
+        let c : WsConn := { path := sp, user := user.getD [] }
+        match sub with
+        | .rtsp | .control | .data => (w', .upgraded c)
+        | .none =>
+          if ext = ".flv".toList then
+            match w'.getOrCreate cfg sp with
+            | some s => (w', .serveFlv c s.key)
+            | none => (w', .closed c)
+          else (w', .closed c)
+
 /-! ## WSP -/
 
 structure WspSess where
